@@ -29,7 +29,7 @@ func init() {
 func (c16) ID() string    { return "C16" }
 func (c16) Level() string { return "exploration" }
 func (c16) Rule() string {
-	return "cases of four kinds on one directory: (race) 2..8 child PROCESSES (the harness binary in opener mode) x 1..4 goroutines each perform 50..400 Open attempts in total, also racing on a directory that does not exist yet; every successful opener immediately creates a token file with O_CREAT|O_EXCL in a side directory, writes a few uniquely named keys, removes the token and closes: a failing O_EXCL is an exact, clock-free witness that two holders overlapped; every rejected Open must return ErrDatabaseIsUsing; at the end all acknowledged keys must be readable; (fingerprint) while one holder sits idle, bursts of Open attempts from other processes and goroutines must all be rejected and must leave names, sizes, modes, mtimes and SHA-256 of every file of the directory unchanged; (release) Opens made to fail after the lock was taken (non-numeric *.data name, corrupt first chunk, data file replaced by a directory) must leave the directory openable - from the same process and from a child - once the cause is removed; (closing) at every file-level close event inside Close, observed through the hooks, an Open of the same directory must still be rejected (the holder lets go of the lock last), for both I/O types; (stale) Close on an already closed handle while another holder has the directory open must not let a third opener in. Non-trivial: race case with >=2 processes, >=1 rejected and >=2 successful Opens; distinct = hash of the case parameters and outcome counts"
+	return "cases of six kinds on one directory: (race) 2..8 child PROCESSES (the harness binary in opener mode) x 1..4 goroutines each perform 50..400 Open attempts in total, also racing on a directory that does not exist yet; every successful opener immediately creates a token file with O_CREAT|O_EXCL in a side directory, writes a few uniquely named keys, removes the token and closes: a failing O_EXCL is an exact, clock-free witness that two holders overlapped; every rejected Open must return ErrDatabaseIsUsing; at the end all acknowledged keys must be readable; (fingerprint) while one holder sits idle, bursts of Open attempts from other processes and goroutines must all be rejected and must leave names, sizes, modes, mtimes and SHA-256 of every file of the directory unchanged; (release) Opens made to fail after the lock was taken (non-numeric *.data name, corrupt first chunk, data file replaced by a directory) must leave the directory openable - from the same process and from a child - once the cause is removed; (closing) at every file-level close event inside Close, observed through the hooks, an Open of the same directory must still be rejected (the holder lets go of the lock last), for both I/O types; (close-in-merge) Close is called from inside a running Merge of the same handle (at merge.afterRotate / merge.record / merge.beforeMarker, standard I/O): whatever Close answers, a second Open that succeeds while the first handle still accepts a Put means two owners; afterwards the directory must open and hold every key; (stale) Close on an already closed handle while another holder has the directory open must not let a third opener in. Non-trivial: race case with >=2 processes, >=1 rejected and >=2 successful Opens; distinct = hash of the case parameters and outcome counts"
 }
 func (c16) Assumptions() []string {
 	return []string{"flock semantics of the host kernel", "child processes are real OS processes started from the harness binary"}
@@ -53,7 +53,7 @@ func (c16) Cases(tier string, seed uint64) []core.Case {
 		n = 6000
 	}
 	r := core.NewRng(core.Mix(seed, 0xC16))
-	kinds := []string{"race", "race", "fingerprint", "release", "race", "stale", "closing"}
+	kinds := []string{"race", "race", "fingerprint", "release", "race", "stale", "closing", "race", "close-in-merge"}
 	var out []core.Case
 	for i := 0; i < n; i++ {
 		out = append(out, core.Case{Index: i, ID: fmt.Sprintf("c16-%04d", i), Seed: r.U64(),
@@ -468,6 +468,68 @@ func (c16) Run(c core.Case, w *core.Worker) core.Result {
 		}
 		res.Add("closing_checks", 1)
 		res.Nontrivial = h.attempts > 3
+	case "close-in-merge":
+		// Close is called while a Merge of the same handle is in its rewrite phase (no lock
+		// held). Whatever Close answers: if another Open of the directory then succeeds, the
+		// first handle must be dead - a handle that still accepts writes next to a new holder
+		// means two owners. Standard I/O only (the mapped back-end may fault on files that
+		// were closed under the merge, which is a matter of C09's exclusions, not of the lock).
+		ccfg := cfg
+		ccfg.FileIO = 0
+		ccfg.DataFileSize = 4 << 10
+		a, err := kv.Open(ccfg.Options(dir))
+		if err != nil {
+			fail("open", err.Error())
+			return res
+		}
+		for i := 0; i < 80; i++ {
+			a.Put([]byte(fmt.Sprintf("k%d", i%50)), core.FillValue(uint64(i+1), 500))
+		}
+		at := []string{"merge.afterRotate", "merge.record", "merge.beforeMarker"}[c.Index/9%3]
+		fired := false
+		var closeErr, openErr, putErr error
+		var second *kv.DB
+		old := vhook.Set(pointFunc(func(name string) {
+			if fired || name != at {
+				return
+			}
+			fired = true
+			closeErr = a.Close()
+			second, openErr = kv.Open(ccfg.Options(dir))
+			putErr = a.Put([]byte("written-through-the-first-handle"), []byte("x"))
+			if second != nil {
+				second.Close()
+			}
+		}))
+		var merr error
+		pv, _ := core.Safe(func() { merr = a.Merge() })
+		vhook.Set(old)
+		res.Add("closes_during_merge", 1)
+		res.SetAdd("close_during_merge_outcome", fmt.Sprintf("at %s: Close->%v Open->%v Put->%v Merge->%v panic=%v", at, closeErr, openErr, putErr, merr, pv != nil))
+		if !fired {
+			res.Verdict, res.Note = "inconclusive", "hook point "+at+" was not reached"
+			return res
+		}
+		if openErr == nil && putErr == nil {
+			fail("two-holders", fmt.Sprintf("Close called during Merge (at %s) returned %v; a second Open of the directory then succeeded while the first handle still accepted a Put: two owners", at, closeErr))
+		}
+		if openErr != nil && !errors.Is(openErr, kv.ErrDatabaseIsUsing) && closeErr != nil {
+			fail("reject-error", "Open after a refused Close returned "+openErr.Error())
+		}
+		core.Safe(func() { a.Close() })
+		d2, err := kv.Open(ccfg.Options(dir))
+		if err != nil {
+			fail("reopen", "the directory cannot be opened after Close during Merge: "+err.Error())
+		} else {
+			for i := 0; i < 50; i++ {
+				if v, err := d2.Get([]byte(fmt.Sprintf("k%d", i))); err != nil || len(v) != 500 {
+					fail("lost-write", fmt.Sprintf("key k%d not readable after Close during Merge + Open: %v", i, err))
+					break
+				}
+			}
+			d2.Close()
+		}
+		res.Nontrivial = true
 	case "stale":
 		a, err := kv.Open(cfg.Options(dir))
 		if err != nil {
@@ -547,3 +609,10 @@ func (p *closingProbe) IO(kind, path string, off int64, n int, buf []byte) {
 		p.other = err.Error()
 	}
 }
+
+// pointFunc adapts a function to the hook interface (named points only).
+type pointFunc func(name string)
+
+func (pointFunc) FS(kind, a, b string)                               {}
+func (pointFunc) IO(kind, path string, off int64, n int, buf []byte) {}
+func (f pointFunc) Point(name string)                                { f(name) }
